@@ -219,7 +219,13 @@ def check_tree(chk, tree, keep, sr, cr, label, run_scripts=True):
                 sig = "script-differs:quote" if names else "script-differs"
                 chk.violation(sig, replay, f"{shell} clean script: rc={r.returncode} tree differs from autoclean at {diff}; stderr={r.stderr[:100]!r}")
             chk.count("scripts_executed")
-    if open(os.path.join(top, "decoy.txt")).read() != "decoy" or open(os.path.join(outside, "f")).read() != "decoy":
+    def _decoy(path):
+        try:
+            with open(path) as fp:
+                return fp.read()
+        except OSError:
+            return None     # removed: the strongest way of touching it
+    if _decoy(os.path.join(top, "decoy.txt")) != "decoy" or _decoy(os.path.join(outside, "f")) != "decoy":
         chk.violation("decoy-touched", replay, "cleaning touched something outside the root")
     if dis:
         chk.violation("correspondence-clean", dict(replay, disagreement=dis, correspondence="Model/Clean.lean scan/execQueues vs PathCleaner"), dis[0], no_input=True)
